@@ -457,9 +457,17 @@ func NewPointer(elemType Type) *PointerType {
 
 // Equal reports whether t and u are of equal type.
 func (t *PointerType) Equal(u Type) bool {
-	// HACK: to prevent infinite loops (e.g. struct foo containing field of type
-	// pointer to foo).
-	return t.String() == u.String()
+	// Note: no infinite loops (e.g. struct foo containing field of type pointer
+	// to foo), as identified struct types are compared by type name. The type
+	// name of a pointer type is an alias (e.g. `%T = type i32*`), thus %T and
+	// i32* are equal.
+	if u, ok := u.(*PointerType); ok {
+		if t.AddrSpace != u.AddrSpace {
+			return false
+		}
+		return t.ElemType.Equal(u.ElemType)
+	}
+	return false
 }
 
 // String returns the string representation of the pointer type.
